@@ -126,7 +126,7 @@ func run(sc scenario) (out runOut) {
 			case st.spec.Wrapper == "timeout-fires":
 				select { // only returns on cancellation
 				case <-exec.Canceled():
-				case <-time.After(40 * time.Second):
+				case <-harness.After(40 * time.Second):
 				}
 			case st.spec.Role == "holder":
 				select {
@@ -257,7 +257,7 @@ func run(sc scenario) (out runOut) {
 			}
 		}
 	}
-	watchdog := time.After(30 * time.Second)
+	watchdog := harness.After(30 * time.Second)
 	for i, st := range states {
 		select {
 		case <-st.done:
@@ -311,7 +311,7 @@ func run(sc scenario) (out runOut) {
 	// exactly Max permits are available again (attempts a hedge abandoned may still be on their way out: a permit that is
 	// only late comes back within the polling period, a lost one never does)
 	got := 0
-	probeUntil := time.Now().Add(10 * time.Second)
+	probeUntil := harness.Wait(10 * time.Second)
 	for {
 		got = 0
 		for got <= sc.Max && bh.TryAcquirePermit() {
@@ -320,7 +320,7 @@ func run(sc scenario) (out runOut) {
 		for i := 0; i < got; i++ {
 			bh.ReleasePermit()
 		}
-		if got == sc.Max || time.Now().After(probeUntil) {
+		if got == sc.Max || probeUntil.Expired() {
 			break
 		}
 		time.Sleep(200 * time.Microsecond)
